@@ -1,6 +1,7 @@
 package sim
 
 import (
+	"bytes"
 	"context"
 	"fmt"
 	"strings"
@@ -737,14 +738,36 @@ func (m *Monitors) wireCheck(n *Node, sm *SentMsg) {
 		if pp := nv.Message(); pp != nil && len(pp.Raw()) > 0 && !sig(pp.SignedHeader().Raw(), pp.Sender()) {
 			m.fail("C20", "own-signature-does-not-verify", "node %d: the PREPREPARE embedded in its NEW_VIEW does not verify over the re-read header", n.Idx)
 		}
+		// built from VIEW_CHANGE messages: the nested votes are exactly the votes the node stored for that view - same number, same
+		// senders, same bytes (none lost, none doubled on the way into the NEW_VIEW)
+		stored := map[string][]byte{}
+		for _, e := range n.Sto.Log {
+			if e.Kind == "VC" && e.Stored && uint64(e.H) == meta.H && uint64(e.V) == meta.V {
+				stored[e.Sender] = e.Msg.(*interfaces.ViewChangeMessage).Content().Raw()
+			}
+		}
+		embedded := map[string]int{}
 		it := nv.SignedHeader().ViewChangeConfirmationsIterator()
 		for it.HasNext() {
 			vote := it.NextViewChangeConfirmations()
+			id := string(vote.Sender().MemberId())
+			embedded[id]++
+			if embedded[id] > 1 {
+				m.fail("C20", "nested-votes-differ-from-source:duplicate", "node %d sent a NEW_VIEW(h=%d,v=%d) that carries the vote of %q %d times", n.Idx, meta.H, meta.V, id, embedded[id])
+			}
+			if src, ok := stored[id]; ok && !bytes.Equal(src, vote.Raw()) {
+				m.fail("C20", "nested-votes-differ-from-source:bytes", "node %d sent a NEW_VIEW(h=%d,v=%d) in which the vote of %q is not the bytes of the VIEW_CHANGE it was built from", n.Idx, meta.H, meta.V, id)
+			}
 			m.Facts["c20-nested-signatures-checked"]++
 			if !sig(vote.SignedHeader().Raw(), vote.Sender()) {
 				m.fail("C20", "nested-signature-does-not-verify:vote", "node %d sent a NEW_VIEW(h=%d,v=%d) embedding a vote of %q whose signature does not verify over the re-read vote header", n.Idx, meta.H, meta.V, vote.Sender().MemberId())
 			}
 			proofOK("embedded vote's prepared proof", vote.SignedHeader().PreparedProof())
+		}
+		for id := range stored {
+			if embedded[id] == 0 {
+				m.fail("C20", "nested-votes-differ-from-source:missing", "node %d sent a NEW_VIEW(h=%d,v=%d) that does not carry the vote of %q it was built from", n.Idx, meta.H, meta.V, id)
+			}
 		}
 	}
 }
